@@ -11,6 +11,7 @@
 import LLTD.Generated.Translated
 import LLTD.Model.Automata
 import LLTD.Lemmas.XVals
+import LLTD.Lemmas.Lookup
 
 namespace LLTD.TEq
 open LLTD LLTD.X
@@ -53,7 +54,7 @@ theorem band_update_stats_eq (e : T.Env) (b : T.band_state) (he : ClockOk e) :
   obtain ⟨h1, _⟩ := he
   have h : (e.nowMs + 300) % 18446744073709551616 = e.nowMs + 300 := Nat.mod_eq_of_lt (by unfold u64 at h1; omega)
   unfold T.band_update_stats bandUpdateStats
-  simp only [bandBlockTime_val, loop12, bandNewNi_eq]
+  simp only [bandBlockTime_val, loop12, bandNewNi_eq, T.band_update_stats.loop1]
   generalize hq : b.r * b.r % 18446744073709551616 = q
   by_cases hr : b.r > 0 <;> by_cases hb : b.begun = true <;> by_cases hq1 : 10000 < q <;>
     simp [bandOfC, hr, hb, h, hq, hq1]
@@ -145,5 +146,421 @@ theorem session_table_all_complete_eq (e : T.Env) (t : T.session_table) :
 theorem session_table_clear_eq (e : T.Env) (t : T.session_table) :
     tableOfC (T.session_table_clear e t).table = (tableOfC t).clear := by
   simp [T.session_table_clear, Table.clear, Table.create, tableOfC, entryOfC, T.session_entry.zero, Entry.zero]
+
+/-! ## The three automata: switch_state_mapping / switch_state_session / switch_state_enumeration -/
+
+
+theorem loopRange_inv {σ : Type} (P : Nat → σ → Prop) (b : Nat) (f : Nat → σ → σ) :
+    ∀ (k a : Nat) (s : σ), a + k = b → P a s → (∀ i s, a ≤ i → i < b → P i s → P (i + 1) (f i s)) →
+      P b (CSem.loopRange a b f s) := by
+  intro k
+  induction k with
+  | zero => intro a s hab h0 _; have : a = b := by omega
+            subst this; rw [CSem.loopRange_empty _ _ _ _ (Nat.le_refl _)]; exact h0
+  | succ k ih =>
+    intro a s hab h0 hstep
+    rw [CSem.loopRange_succ _ _ _ _ (by omega)]
+    exact ih (a + 1) (f a s) (by omega) (hstep a s (Nat.le_refl _) (by omega) h0)
+      (fun i s hi hb hp => hstep i s (by omega) hb hp)
+
+def rowOfC (t : T.transition) : Nat × Nat × Int := (t.from_, t.to_, t.with_)
+def rowsOfC (a : T.automata) : TransTable := (a.transitions_table.take a.transitions_no).map rowOfC
+def timeoutsOfC (a : T.automata) : List Nat := a.states_table.map (fun s => s.timeout.toNat)
+def fsmOfC (a : T.automata) : Fsm := { state := a.current_state, lastTs := a.last_ts }
+
+/-- the new state the table walk ends with -/
+def walk (cur : Nat) (inp : Int) (acc : Nat) (rows : List (Nat × Nat × Int)) : Nat :=
+  rows.foldl (fun acc r => if cur = r.1 ∧ r.2.2 = inp then r.2.1 else acc) acc
+
+theorem lookup_walk (tbl : TransTable) (cur : Nat) (inp : Int) : (lookup tbl cur inp).1 = walk cur inp cur tbl := by
+  unfold lookup walk
+  suffices h : ∀ (acc : Nat × Bool), (tbl.foldl (fun acc r => if cur = r.1 ∧ r.2.2 = inp then (r.2.1, true) else acc) acc).1 =
+      tbl.foldl (fun acc r => if cur = r.1 ∧ r.2.2 = inp then r.2.1 else acc) acc.1 from h (cur, false)
+  induction tbl with
+  | nil => intro acc; rfl
+  | cons r rest ih =>
+    intro acc; simp only [List.foldl_cons]
+    rw [ih]; congr 1; split <;> rfl
+
+theorem walk_snoc (cur : Nat) (inp : Int) (acc : Nat) (rows : List (Nat × Nat × Int)) (r : Nat × Nat × Int) :
+    walk cur inp acc (rows ++ [r]) = (if cur = r.1 ∧ r.2.2 = inp then r.2.1 else walk cur inp acc rows) := by
+  simp [walk, List.foldl_append]
+
+theorem take_succ_map (l : List T.transition) (i : Nat) (h : i < l.length) :
+    (l.take (i + 1)).map rowOfC = (l.take i).map rowOfC ++ [rowOfC (l.getD i T.transition.zero)] := by
+  have h' : i < (l.map rowOfC).length := by simpa using h
+  rw [List.map_take, List.map_take, List.take_add_one, List.getElem?_eq_getElem h']
+  simp [List.getD, List.getElem?_eq_getElem h]
+
+
+
+structure AutOk (a : T.automata) : Prop where
+  hno : a.transitions_no ≤ a.transitions_table.length
+  hto : ∀ s ∈ a.states_table, 0 ≤ s.timeout ∧ s.timeout < 32768
+  hts : a.last_ts < u64
+
+theorem tmo_eq (a : T.automata) (h : AutOk a) (k : Nat) :
+    ((a.states_table.getD k T.state.zero).timeout ≠ 0 ↔ timeoutOf (timeoutsOfC a) k ≠ 0) ∧
+    CSem.toU 64 (a.states_table.getD k T.state.zero).timeout = timeoutOf (timeoutsOfC a) k := by
+  unfold timeoutOf timeoutsOfC
+  by_cases hk : k < a.states_table.length
+  · have hm := h.hto (a.states_table[k]) (List.getElem_mem hk)
+    simp only [List.getD, List.getElem?_eq_getElem hk, Option.getD_some, List.getElem?_map, Option.map_some]
+    refine ⟨by omega, ?_⟩
+    unfold CSem.toU
+    have : (a.states_table[k].timeout % ((2 ^ 64 : Nat) : Int)) = a.states_table[k].timeout := Int.emod_eq_of_lt hm.1 (by omega)
+    rw [this]
+  · have hk' : a.states_table.length ≤ k := by omega
+    simp [List.getD, List.getElem?_eq_none hk', T.state.zero, CSem.toU]
+
+/-- the table walk of switch_state_mapping: the loop leaves everything but `new_state` / `find` alone and `new_state`
+    ends as the last matching row's target -/
+theorem loop_mapping (e : T.Env) (a : T.automata) (inp : Int) (n : Nat) (hn : n ≤ a.transitions_table.length)
+    (s : T.switch_state_mapping.S) (h1 : s.autom = a) (h2 : s.input = inp) (h3 : s.done = false) (h4 : s.brk = false) :
+    let s' := CSem.loopRange 0 n (T.switch_state_mapping.loop1 e) s
+    s'.autom = a ∧ s'.input = inp ∧ s'.done = false ∧ s'.brk = false ∧ s'.timeout = s.timeout ∧ s'.now = s.now ∧
+    s'.diverged = s.diverged ∧
+    s'.new_state = walk a.current_state inp s.new_state ((a.transitions_table.take n).map rowOfC) := by
+  intro s'
+  have := loopRange_inv (fun i (t : T.switch_state_mapping.S) =>
+      t.autom = a ∧ t.input = inp ∧ t.done = false ∧ t.brk = false ∧ t.timeout = s.timeout ∧ t.now = s.now ∧
+      t.diverged = s.diverged ∧ t.new_state = walk a.current_state inp s.new_state ((a.transitions_table.take i).map rowOfC))
+    n (T.switch_state_mapping.loop1 e) n 0 s (by omega)
+    ⟨h1, h2, h3, h4, rfl, rfl, rfl, by simp [walk]⟩
+    (by
+      intro i t _ hi ⟨p1, p2, p3, p4, p5, p6, p7, p8⟩
+      have hlt : i < a.transitions_table.length := by omega
+      rw [take_succ_map _ _ hlt, walk_snoc]
+      unfold T.switch_state_mapping.loop1
+      simp only [p3, p4, Bool.or_self, Bool.false_eq_true, if_false, p1, p2]
+      generalize a.transitions_table.getD i T.transition.zero = row
+      by_cases hA : a.current_state = row.from_ <;> by_cases hB : row.with_ = inp <;>
+        simp [hA, hB, rowOfC, p1, p2, p3, p4, p5, p6, p7, p8, Int.natCast_inj])
+  exact this
+
+
+
+theorem diff64_eq (now last : Nat) (hl : last < u64) : (now + 18446744073709551616 - last) % 18446744073709551616 = diff64 now last := by
+  unfold diff64 u64; unfold u64 at hl; rw [Nat.mod_eq_of_lt hl]
+
+/-- tables of an automaton are not touched by a step -/
+def sameTables (a b : T.automata) : Prop :=
+  b.transitions_table = a.transitions_table ∧ b.transitions_no = a.transitions_no ∧ b.states_table = a.states_table
+
+def expiredP (e : T.Env) (a : T.automata) : Prop :=
+  timeoutOf (timeoutsOfC a) a.current_state ≠ 0 ∧ diff64 e.nowS a.last_ts > timeoutOf (timeoutsOfC a) a.current_state
+
+instance (e : T.Env) (a : T.automata) : Decidable (expiredP e a) := by unfold expiredP; exact inferInstance
+
+theorem diff64_self (n : Nat) (h : n < u64) : diff64 n n = 0 := by
+  unfold diff64; rw [Nat.mod_eq_of_lt h]; unfold u64 at *; omega
+
+theorem rowsOfC_same (a b : T.automata) (h : sameTables a b) : rowsOfC b = rowsOfC a ∧ timeoutsOfC b = timeoutsOfC a := by
+  obtain ⟨h1, h2, h3⟩ := h
+  simp [rowsOfC, timeoutsOfC, h1, h2, h3]
+
+theorem switch_state_mapping_aux (e : T.Env) (hnow : e.nowS < u64) :
+    ∀ (fuel : Nat) (a : T.automata) (inp : Int), AutOk a →
+      fsmOfC (T.switch_state_mapping fuel e a inp).autom =
+        stepTimedAux (rowsOfC a) (timeoutsOfC a) fuel (fsmOfC a) inp e.nowS ∧
+      sameTables a (T.switch_state_mapping fuel e a inp).autom ∧
+      ((if expiredP e a then 2 else 1) ≤ fuel → (T.switch_state_mapping fuel e a inp).diverged = false) := by
+  intro fuel
+  induction fuel with
+  | zero => intro a inp _; exact ⟨rfl, ⟨rfl, rfl, rfl⟩, by intro h; split at h <;> omega⟩
+  | succ fuel ih =>
+    intro a inp hok
+    obtain ⟨tm1, tm2⟩ := tmo_eq a hok a.current_state
+    simp only [fsmOfC]
+    unfold T.switch_state_mapping stepTimedAux
+    simp only [diff64_eq _ _ hok.hts, tm2, Int.toNat_natCast]
+    by_cases hexp : timeoutOf (timeoutsOfC a) a.current_state ≠ 0 ∧ diff64 e.nowS a.last_ts > timeoutOf (timeoutsOfC a) a.current_state
+    · have hb : (((a.states_table.getD a.current_state T.state.zero).timeout != 0) &&
+          decide (diff64 e.nowS a.last_ts > timeoutOf (timeoutsOfC a) a.current_state)) = true := by
+        simp only [Bool.and_eq_true, bne_iff_ne, ne_eq, decide_eq_true_eq]; exact ⟨tm1.2 hexp.1, hexp.2⟩
+      simp only [hb, if_true]
+      have hloop := loop_mapping e a (-1) a.transitions_no hok.hno
+        { autom := a, input := -1, new_state := a.current_state, current_state_idx2 := a.current_state, timeout := true,
+          now := e.nowS, diff := diff64 e.nowS a.last_ts, find := -1 } rfl rfl rfl rfl
+      simp only at hloop
+      generalize CSem.loopRange 0 a.transitions_no (T.switch_state_mapping.loop1 e)
+        { autom := a, input := -1, new_state := a.current_state, current_state_idx2 := a.current_state, timeout := true,
+          now := e.nowS, diff := diff64 e.nowS a.last_ts, find := -1 } = L at hloop ⊢
+      obtain ⟨l1, l2, l3, l4, l5, l6, l7, l8⟩ := hloop
+      simp only [l1, l2, l3, l4, l5, l6, l7, Bool.or_true, if_true, Bool.or_self, Bool.false_eq_true, if_false, Bool.false_or]
+      have hok2 : AutOk { a with current_state := L.new_state, last_ts := e.nowS } := ⟨hok.hno, hok.hto, hnow⟩
+      obtain ⟨i1, i2, i3⟩ := ih { a with current_state := L.new_state, last_ts := e.nowS } (-1) hok2
+      have hne : ¬ expiredP e { a with current_state := L.new_state, last_ts := e.nowS } := by
+        unfold expiredP; simp only [diff64_self _ hnow]; omega
+      have hs : sameTables a { a with current_state := L.new_state, last_ts := e.nowS } := ⟨rfl, rfl, rfl⟩
+      obtain ⟨r1, r2⟩ := rowsOfC_same _ _ hs
+      refine ⟨?_, ?_, ?_⟩
+      · have hc : (timeoutOf (timeoutsOfC a) a.current_state ≠ 0 ∧ True) := ⟨hexp.1, trivial⟩
+        simp only [if_pos hc, Bool.true_or, if_true]
+        simp only [fsmOfC] at i1 ⊢
+        rw [i1, r1, r2, l8, lookup_walk]
+        simp only [if_pos hexp]; rfl
+      · exact ⟨i2.1.trans hs.1, i2.2.1.trans hs.2.1, i2.2.2.trans hs.2.2⟩
+      · intro hf
+        have hE : expiredP e a := hexp
+        simp only [if_pos hE] at hf
+        simp only [if_neg hne] at i3
+        simp only [Bool.true_or, if_true, Bool.false_or]
+        exact i3 (by omega)
+    · have hb : (((a.states_table.getD a.current_state T.state.zero).timeout != 0) &&
+          decide (diff64 e.nowS a.last_ts > timeoutOf (timeoutsOfC a) a.current_state)) = false := by
+        rw [Bool.and_eq_false_iff]
+        by_cases h0 : timeoutOf (timeoutsOfC a) a.current_state = 0
+        · left; simp only [bne_eq_false_iff_eq]; exact Classical.not_not.mp (fun h => (tm1.1 h) h0)
+        · right; simp only [decide_eq_false_iff_not]; exact fun h => hexp ⟨h0, h⟩
+      simp only [hb, Bool.false_eq_true, if_false]
+      have hloop := loop_mapping e a inp a.transitions_no hok.hno
+        { autom := a, input := inp, new_state := a.current_state, current_state_idx2 := a.current_state,
+          now := e.nowS, diff := diff64 e.nowS a.last_ts, find := -1 } rfl rfl rfl rfl
+      simp only at hloop
+      generalize CSem.loopRange 0 a.transitions_no (T.switch_state_mapping.loop1 e)
+        { autom := a, input := inp, new_state := a.current_state, current_state_idx2 := a.current_state,
+          now := e.nowS, diff := diff64 e.nowS a.last_ts, find := -1 } = L at hloop ⊢
+      obtain ⟨l1, l2, l3, l4, l5, l6, l7, l8⟩ := hloop
+      simp only [l1, l2, l3, l4, l5, l6, l7, Bool.or_false, Bool.or_self, Bool.false_eq_true, if_false]
+      have l8' : L.new_state = walk a.current_state inp a.current_state (rowsOfC a) := l8
+      by_cases hc : (((a.current_state : Int) != (L.new_state : Int)) || decide (L.find ≥ 0)) = true
+      · simp only [hc, if_true, Bool.false_eq_true, if_false, Bool.or_self]
+        refine ⟨?_, ⟨rfl, rfl, rfl⟩, fun _ => trivial⟩
+        simp only [fsmOfC, lookup_walk]
+        split
+        · rename_i h; exact absurd h hexp
+        · rw [l8']
+      · simp only [hc, if_false, Bool.false_eq_true, Bool.or_self]
+        refine ⟨?_, ⟨rfl, rfl, rfl⟩, fun _ => trivial⟩
+        have h' : a.current_state = L.new_state := by
+          simp only [Bool.or_eq_true, not_or, bne_iff_ne, ne_eq, Decidable.not_not] at hc
+          exact_mod_cast hc.1
+        simp only [fsmOfC, lookup_walk]
+        split
+        · rename_i h; exact absurd h hexp
+        · rw [← l8', ← h']
+
+
+/-! ### the session automaton (the same proof: the two C functions differ in their names only) -/
+
+/-- the table walk of switch_state_session: the loop leaves everything but `new_state` / `find` alone and `new_state`
+    ends as the last matching row's target -/
+theorem loop_session (e : T.Env) (a : T.automata) (inp : Int) (n : Nat) (hn : n ≤ a.transitions_table.length)
+    (s : T.switch_state_session.S) (h1 : s.autom = a) (h2 : s.input = inp) (h3 : s.done = false) (h4 : s.brk = false) :
+    let s' := CSem.loopRange 0 n (T.switch_state_session.loop1 e) s
+    s'.autom = a ∧ s'.input = inp ∧ s'.done = false ∧ s'.brk = false ∧ s'.timeout = s.timeout ∧ s'.now = s.now ∧
+    s'.diverged = s.diverged ∧
+    s'.new_state = walk a.current_state inp s.new_state ((a.transitions_table.take n).map rowOfC) := by
+  intro s'
+  have := loopRange_inv (fun i (t : T.switch_state_session.S) =>
+      t.autom = a ∧ t.input = inp ∧ t.done = false ∧ t.brk = false ∧ t.timeout = s.timeout ∧ t.now = s.now ∧
+      t.diverged = s.diverged ∧ t.new_state = walk a.current_state inp s.new_state ((a.transitions_table.take i).map rowOfC))
+    n (T.switch_state_session.loop1 e) n 0 s (by omega)
+    ⟨h1, h2, h3, h4, rfl, rfl, rfl, by simp [walk]⟩
+    (by
+      intro i t _ hi ⟨p1, p2, p3, p4, p5, p6, p7, p8⟩
+      have hlt : i < a.transitions_table.length := by omega
+      rw [take_succ_map _ _ hlt, walk_snoc]
+      unfold T.switch_state_session.loop1
+      simp only [p3, p4, Bool.or_self, Bool.false_eq_true, if_false, p1, p2]
+      generalize a.transitions_table.getD i T.transition.zero = row
+      by_cases hA : a.current_state = row.from_ <;> by_cases hB : row.with_ = inp <;>
+        simp [hA, hB, rowOfC, p1, p2, p3, p4, p5, p6, p7, p8, Int.natCast_inj])
+  exact this
+
+
+
+theorem switch_state_session_aux (e : T.Env) (hnow : e.nowS < u64) :
+    ∀ (fuel : Nat) (a : T.automata) (inp : Int), AutOk a →
+      fsmOfC (T.switch_state_session fuel e a inp).autom =
+        stepTimedAux (rowsOfC a) (timeoutsOfC a) fuel (fsmOfC a) inp e.nowS ∧
+      sameTables a (T.switch_state_session fuel e a inp).autom ∧
+      ((if expiredP e a then 2 else 1) ≤ fuel → (T.switch_state_session fuel e a inp).diverged = false) := by
+  intro fuel
+  induction fuel with
+  | zero => intro a inp _; exact ⟨rfl, ⟨rfl, rfl, rfl⟩, by intro h; split at h <;> omega⟩
+  | succ fuel ih =>
+    intro a inp hok
+    obtain ⟨tm1, tm2⟩ := tmo_eq a hok a.current_state
+    simp only [fsmOfC]
+    unfold T.switch_state_session stepTimedAux
+    simp only [diff64_eq _ _ hok.hts, tm2, Int.toNat_natCast]
+    by_cases hexp : timeoutOf (timeoutsOfC a) a.current_state ≠ 0 ∧ diff64 e.nowS a.last_ts > timeoutOf (timeoutsOfC a) a.current_state
+    · have hb : (((a.states_table.getD a.current_state T.state.zero).timeout != 0) &&
+          decide (diff64 e.nowS a.last_ts > timeoutOf (timeoutsOfC a) a.current_state)) = true := by
+        simp only [Bool.and_eq_true, bne_iff_ne, ne_eq, decide_eq_true_eq]; exact ⟨tm1.2 hexp.1, hexp.2⟩
+      simp only [hb, if_true]
+      have hloop := loop_session e a (-1) a.transitions_no hok.hno
+        { autom := a, input := -1, new_state := a.current_state, current_state_idx2 := a.current_state, timeout := true,
+          now := e.nowS, diff := diff64 e.nowS a.last_ts, find := -1 } rfl rfl rfl rfl
+      simp only at hloop
+      generalize CSem.loopRange 0 a.transitions_no (T.switch_state_session.loop1 e)
+        { autom := a, input := -1, new_state := a.current_state, current_state_idx2 := a.current_state, timeout := true,
+          now := e.nowS, diff := diff64 e.nowS a.last_ts, find := -1 } = L at hloop ⊢
+      obtain ⟨l1, l2, l3, l4, l5, l6, l7, l8⟩ := hloop
+      simp only [l1, l2, l3, l4, l5, l6, l7, Bool.or_true, if_true, Bool.or_self, Bool.false_eq_true, if_false, Bool.false_or]
+      have hok2 : AutOk { a with current_state := L.new_state, last_ts := e.nowS } := ⟨hok.hno, hok.hto, hnow⟩
+      obtain ⟨i1, i2, i3⟩ := ih { a with current_state := L.new_state, last_ts := e.nowS } (-1) hok2
+      have hne : ¬ expiredP e { a with current_state := L.new_state, last_ts := e.nowS } := by
+        unfold expiredP; simp only [diff64_self _ hnow]; omega
+      have hs : sameTables a { a with current_state := L.new_state, last_ts := e.nowS } := ⟨rfl, rfl, rfl⟩
+      obtain ⟨r1, r2⟩ := rowsOfC_same _ _ hs
+      refine ⟨?_, ?_, ?_⟩
+      · have hc : (timeoutOf (timeoutsOfC a) a.current_state ≠ 0 ∧ True) := ⟨hexp.1, trivial⟩
+        simp only [if_pos hc, Bool.true_or, if_true]
+        simp only [fsmOfC] at i1 ⊢
+        rw [i1, r1, r2, l8, lookup_walk]
+        simp only [if_pos hexp]; rfl
+      · exact ⟨i2.1.trans hs.1, i2.2.1.trans hs.2.1, i2.2.2.trans hs.2.2⟩
+      · intro hf
+        have hE : expiredP e a := hexp
+        simp only [if_pos hE] at hf
+        simp only [if_neg hne] at i3
+        simp only [Bool.true_or, if_true, Bool.false_or]
+        exact i3 (by omega)
+    · have hb : (((a.states_table.getD a.current_state T.state.zero).timeout != 0) &&
+          decide (diff64 e.nowS a.last_ts > timeoutOf (timeoutsOfC a) a.current_state)) = false := by
+        rw [Bool.and_eq_false_iff]
+        by_cases h0 : timeoutOf (timeoutsOfC a) a.current_state = 0
+        · left; simp only [bne_eq_false_iff_eq]; exact Classical.not_not.mp (fun h => (tm1.1 h) h0)
+        · right; simp only [decide_eq_false_iff_not]; exact fun h => hexp ⟨h0, h⟩
+      simp only [hb, Bool.false_eq_true, if_false]
+      have hloop := loop_session e a inp a.transitions_no hok.hno
+        { autom := a, input := inp, new_state := a.current_state, current_state_idx2 := a.current_state,
+          now := e.nowS, diff := diff64 e.nowS a.last_ts, find := -1 } rfl rfl rfl rfl
+      simp only at hloop
+      generalize CSem.loopRange 0 a.transitions_no (T.switch_state_session.loop1 e)
+        { autom := a, input := inp, new_state := a.current_state, current_state_idx2 := a.current_state,
+          now := e.nowS, diff := diff64 e.nowS a.last_ts, find := -1 } = L at hloop ⊢
+      obtain ⟨l1, l2, l3, l4, l5, l6, l7, l8⟩ := hloop
+      simp only [l1, l2, l3, l4, l5, l6, l7, Bool.or_false, Bool.or_self, Bool.false_eq_true, if_false]
+      have l8' : L.new_state = walk a.current_state inp a.current_state (rowsOfC a) := l8
+      by_cases hc : (((a.current_state : Int) != (L.new_state : Int)) || decide (L.find ≥ 0)) = true
+      · simp only [hc, if_true, Bool.false_eq_true, if_false, Bool.or_self]
+        refine ⟨?_, ⟨rfl, rfl, rfl⟩, fun _ => trivial⟩
+        simp only [fsmOfC, lookup_walk]
+        split
+        · rename_i h; exact absurd h hexp
+        · rw [l8']
+      · simp only [hc, if_false, Bool.false_eq_true, Bool.or_self]
+        refine ⟨?_, ⟨rfl, rfl, rfl⟩, fun _ => trivial⟩
+        have h' : a.current_state = L.new_state := by
+          simp only [Bool.or_eq_true, not_or, bne_iff_ne, ne_eq, Decidable.not_not] at hc
+          exact_mod_cast hc.1
+        simp only [fsmOfC, lookup_walk]
+        split
+        · rename_i h; exact absurd h hexp
+        · rw [← l8', ← h']
+
+
+/-! ### the enumeration automaton (no time-out handling, no recursion) -/
+
+theorem loop_enumeration (e : T.Env) (a : T.automata) (inp : Int) (n : Nat) (hn : n ≤ a.transitions_table.length)
+    (s : T.switch_state_enumeration.S) (h1 : s.autom = a) (h2 : s.input = inp) (h3 : s.done = false) (h4 : s.brk = false) :
+    let s' := CSem.loopRange 0 n (T.switch_state_enumeration.loop1 e) s
+    s'.autom = a ∧ s'.input = inp ∧ s'.done = false ∧ s'.brk = false ∧
+    s'.new_state = walk a.current_state inp s.new_state ((a.transitions_table.take n).map rowOfC) := by
+  intro s'
+  have := loopRange_inv (fun i (t : T.switch_state_enumeration.S) =>
+      t.autom = a ∧ t.input = inp ∧ t.done = false ∧ t.brk = false ∧
+      t.new_state = walk a.current_state inp s.new_state ((a.transitions_table.take i).map rowOfC))
+    n (T.switch_state_enumeration.loop1 e) n 0 s (by omega)
+    ⟨h1, h2, h3, h4, by simp [walk]⟩
+    (by
+      intro i t _ hi ⟨p1, p2, p3, p4, p8⟩
+      have hlt : i < a.transitions_table.length := by omega
+      rw [take_succ_map _ _ hlt, walk_snoc]
+      unfold T.switch_state_enumeration.loop1
+      simp only [p3, p4, Bool.or_self, Bool.false_eq_true, if_false, p1, p2]
+      generalize a.transitions_table.getD i T.transition.zero = row
+      by_cases hA : a.current_state = row.from_ <;> by_cases hB : row.with_ = inp <;>
+        simp [hA, hB, rowOfC, p1, p2, p3, p4, p8, Int.natCast_inj])
+  exact this
+
+theorem switch_state_enumeration_eq (e : T.Env) (a : T.automata) (inp : Int) (hno : a.transitions_no ≤ a.transitions_table.length) :
+    fsmOfC (T.switch_state_enumeration e a inp).autom = stepPlain (rowsOfC a) (fsmOfC a) inp e.nowS ∧
+    sameTables a (T.switch_state_enumeration e a inp).autom := by
+  simp only [fsmOfC]
+  unfold T.switch_state_enumeration stepPlain
+  simp only [Int.toNat_natCast]
+  have hloop := loop_enumeration e a inp a.transitions_no hno
+    { autom := a, input := inp, new_state := a.current_state, current_state_idx2 := a.current_state, find := -1 } rfl rfl rfl rfl
+  simp only at hloop
+  obtain ⟨l1, l2, l3, l4, l8⟩ := hloop
+  have l8' : (CSem.loopRange 0 a.transitions_no (T.switch_state_enumeration.loop1 e)
+    { autom := a, input := inp, new_state := a.current_state, current_state_idx2 := a.current_state, find := -1 }).new_state =
+      walk a.current_state inp a.current_state (rowsOfC a) := l8
+  simp only [l1, l2, l3, l4, l8']
+  split
+  · exact ⟨by simp only [lookup_walk], rfl, rfl, rfl⟩
+  · rename_i hc
+    have h' : walk a.current_state inp a.current_state (rowsOfC a) = a.current_state := by
+      simp only [Bool.or_eq_true, not_or, bne_iff_ne, ne_eq, Decidable.not_not] at hc
+      exact_mod_cast hc.1
+    exact ⟨by simp only [lookup_walk, h'], rfl, rfl, rfl⟩
+
+/-! ### top level: the C functions as the ports call them (the recursion needs two levels at most) -/
+
+/-- an automaton record whose tables are the ones `init_automata_mapping` builds (the extract probe prints them) -/
+def tosEq (t1 t2 : List Nat) : Prop := ∀ k, timeoutOf t1 k = timeoutOf t2 k
+
+theorem stepTimedAux_congr (tbl : TransTable) (t1 t2 : List Nat) (h : tosEq t1 t2) :
+    ∀ (fuel : Nat) (f : Fsm) (i : Int) (now : Nat), stepTimedAux tbl t1 fuel f i now = stepTimedAux tbl t2 fuel f i now := by
+  intro fuel
+  induction fuel with
+  | zero => intros; rfl
+  | succ n ih => intro f i now; unfold stepTimedAux; simp only [h f.state, ih]
+
+/-- `states_table` has MAX_STATES slots, the unused ones zero: what matters is the time-out each state index yields -/
+def IsMapping (a : T.automata) : Prop := rowsOfC a = X.mappingTable ∧ tosEq (timeoutsOfC a) X.mappingTimeouts
+def IsSession (a : T.automata) : Prop := rowsOfC a = X.sessionTable ∧ tosEq (timeoutsOfC a) X.sessionTimeouts
+def IsEnumeration (a : T.automata) : Prop := rowsOfC a = X.enumerationTable
+
+theorem switch_state_mapping_eq (e : T.Env) (hnow : e.nowS < u64) (a : T.automata) (inp : Int) (hok : AutOk a) (hm : IsMapping a) :
+    fsmOfC (T.switch_state_mapping 2 e a inp).autom = stepMapping (fsmOfC a) inp e.nowS ∧
+    (T.switch_state_mapping 2 e a inp).diverged = false ∧ sameTables a (T.switch_state_mapping 2 e a inp).autom := by
+  obtain ⟨h1, h2, h3⟩ := switch_state_mapping_aux e hnow 2 a inp hok
+  refine ⟨?_, h3 (by split <;> omega), h2⟩
+  rw [h1, hm.1, stepTimedAux_congr _ _ _ hm.2]; rfl
+
+theorem switch_state_session_eq (e : T.Env) (hnow : e.nowS < u64) (a : T.automata) (inp : Int) (hok : AutOk a) (hm : IsSession a) :
+    fsmOfC (T.switch_state_session 2 e a inp).autom = stepSession (fsmOfC a) inp e.nowS ∧
+    (T.switch_state_session 2 e a inp).diverged = false ∧ sameTables a (T.switch_state_session 2 e a inp).autom := by
+  obtain ⟨h1, h2, h3⟩ := switch_state_session_aux e hnow 2 a inp hok
+  refine ⟨?_, h3 (by split <;> omega), h2⟩
+  rw [h1, hm.1, stepTimedAux_congr _ _ _ hm.2]; rfl
+
+theorem switch_state_enumeration_eq' (e : T.Env) (a : T.automata) (inp : Int) (hno : a.transitions_no ≤ a.transitions_table.length)
+    (hm : IsEnumeration a) : fsmOfC (T.switch_state_enumeration e a inp).autom = stepEnumeration (fsmOfC a) inp e.nowS := by
+  rw [(switch_state_enumeration_eq e a inp hno).1, hm]; rfl
+
+/-- the record `init_automata_*` leaves behind, rebuilt from the extracted tables: it satisfies the hypotheses above -/
+def autOfX (rows : TransTable) (tos : List Nat) (st ts : Nat) : T.automata :=
+  { last_ts := ts, current_state := st,
+    transitions_table := rows.map (fun r => { from_ := r.1, to_ := r.2.1, with_ := r.2.2 }) ++ List.replicate (128 - rows.length) T.transition.zero,
+    transitions_no := rows.length,
+    states_table := tos.map (fun t => { timeout := (t : Int) }) ++ List.replicate (5 - tos.length) T.state.zero,
+    states_no := tos.length }
+
+theorem tosEq_pad (tos : List Nat) (n : Nat) : tosEq (tos ++ List.replicate n 0) tos := by
+  intro k; unfold timeoutOf
+  by_cases hk : k < tos.length
+  · simp [List.getD, List.getElem?_append_left hk]
+  · have hk' : tos.length ≤ k := by omega
+    simp only [List.getD, List.getElem?_append_right hk', List.getElem?_eq_none hk', Option.getD_none]
+    by_cases h2 : k - tos.length < n
+    · simp [List.getElem?_replicate, h2]
+    · simp [List.getElem?_replicate, h2]
+
+example : IsMapping (autOfX X.mappingTable X.mappingTimeouts 1 7) ∧ IsSession (autOfX X.sessionTable X.sessionTimeouts 2 7) ∧
+    IsEnumeration (autOfX X.enumerationTable X.enumerationTimeouts 1 7) := by
+  refine ⟨⟨by decide, ?_⟩, ⟨by decide, ?_⟩, by unfold IsEnumeration; decide⟩
+  · have : timeoutsOfC (autOfX X.mappingTable X.mappingTimeouts 1 7) = X.mappingTimeouts ++ List.replicate 2 0 := by decide
+    rw [this]; exact tosEq_pad _ _
+  · have : timeoutsOfC (autOfX X.sessionTable X.sessionTimeouts 2 7) = X.sessionTimeouts ++ List.replicate 1 0 := by decide
+    rw [this]; exact tosEq_pad _ _
+
+example : AutOk (autOfX X.mappingTable X.mappingTimeouts 1 7) := ⟨by decide +kernel, by decide +kernel, by decide⟩
 
 end LLTD.TEq
